@@ -92,13 +92,8 @@ macro_rules! impl_range_increment_inclusive_match_arms {
             let from_val = *from.borrow();
             let step_val = *step.borrow();
             let to_val = *to.borrow();
-            let diff = to_val - from_val;
-            if diff < $ty::zero() {
-              return Err(MechError::new(
-                EmptyRangeError{},
-                None
-              ).with_compiler_loc());
-            }
+            // direction and emptiness are decided below from the sign of the step;
+            // `to_val - from_val` in the element kind overflows for far-apart signed bounds
             let size = {
               let diff = to_val as f64 - from_val as f64;
               let step = step_val as f64;
